@@ -266,11 +266,25 @@ pub fn run_child(scenario: &[Value], out_path: &str) {
         emit(&json!({"t": "begin", "k": k}));
         if c == "reset" {
             let d = op["d"].as_u64().unwrap_or(20) as usize;
-            b = new_rln(d, &Value::Null).ok();
-            let cfg = json!({}).to_string();
-            let ib = buf(cfg.as_bytes());
+            let with_params = op.get("params").and_then(|x| x.as_bool()).unwrap_or(false);
             let mut ctx: *mut RLN = std::ptr::null_mut();
-            let ok = ffi::new(d, &ib, &mut ctx);
+            let ok;
+            if with_params {
+                // the constructor that takes the circuit resources as buffers (both sides get the bundled files)
+                #[cfg(feature = "arkzkey")]
+                let zk: &[u8] = rln::circuit::ARKZKEY_BYTES;
+                #[cfg(not(feature = "arkzkey"))]
+                let zk: &[u8] = rln::circuit::ZKEY_BYTES;
+                let graph: &[u8] = rln::circuit::graph_from_folder();
+                b = RLN::new_with_params(d, zk.to_vec(), graph.to_vec(), std::io::Cursor::new(Vec::<u8>::new())).ok();
+                let (zb, gb, cb) = (buf(zk), buf(graph), buf(b""));
+                ok = ffi::new_with_params(d, &zb, &gb, &cb, &mut ctx);
+            } else {
+                b = new_rln(d, &Value::Null).ok();
+                let cfg = json!({}).to_string();
+                let ib = buf(cfg.as_bytes());
+                ok = ffi::new(d, &ib, &mut ctx);
+            }
             a = if ok { ctx } else { std::ptr::null_mut() };
             touched.clear();
             for p in [0usize, 1, 2, 3] {
